@@ -8,7 +8,7 @@ HERE=$(cd "$(dirname "$0")" && pwd)
 DRIVER=${DRIVER:-query_replay}
 BIN=$(mktemp -d)/$DRIVER
 rustc --edition 2018 -O "$HERE/src/$DRIVER.rs" --extern sqlgrep=/repo/target/debug/libsqlgrep.rlib -L dependency=/repo/target/debug/deps -o "$BIN" 2>/dev/null
-export JOIN_FILE_CONTENT
+export JOIN_FILE_CONTENT FORMAT
 "$BIN" "$TABLE" "$QUERY" "$EXPECT" "$@"
 rc=$?
 rm -rf "$(dirname "$BIN")"
